@@ -19,7 +19,8 @@
 static void * vf_nop_mem(void * d) { return d; }
 #define memcpy(d, s, n) vf_nop_mem(d)
 #define memmove(d, s, n) vf_nop_mem(d)
-#define memset(d, c, n) vf_nop_mem(d)
+static size_t vf_memset_total;
+#define memset(d, c, n) (vf_memset_total += (size_t)(n), vf_nop_mem(d))      /* payload abstracted, LENGTH recorded */
 #include "cr.c"
 
 #ifndef VF_NS
@@ -39,7 +40,7 @@ static void * vf_nop_mem(void * d) { return d; }
 #endif
 
 static char vf_mem[VF_NS + 1][8];
-static unsigned vf_stage_calls;
+static unsigned vf_stage_calls; static size_t vf_consumed0;
 static int in_c[8], in_o[8];
 
 static void abs_stage_fn(stage_t * p, fifo_t * out)
@@ -54,6 +55,7 @@ static void abs_stage_fn(stage_t * p, fifo_t * out)
   if (occ >= p->input_size) VF_ASSUME(c >= 1 && o >= 1);      /* progress contract (L3) */
   fifo_reserve(out, o);
   fifo_read(&p->fifo, c, NULL);
+  if (p->num == 0) vf_consumed0 += (size_t)c;
 }
 
 static rate_t P;
@@ -125,8 +127,9 @@ VF_MAIN
   }
 #elif VF_OP == 1    /* _soxr_process(olen); _soxr_output(&n) */
   {
-    size_t n = in_n, lastocc; int64_t so0 = P.samples_out; int target;
+    size_t n = in_n, lastocc, occ00 = (size_t)fifo_occupancy(&S[0].fifo); int64_t so0 = P.samples_out; int target;
     _soxr_process(&P, n);
+    if (VF_NS > 0) VF_ASSERT(vf_memset_total == ((size_t)fifo_occupancy(&S[0].fifo) + vf_consumed0 - occ00) * VF_ITEM, "end-of-input padding zeroes exactly the bytes it appends to the first FIFO: whole samples of the stage's sample size (C05/C03)");
     lastocc = (size_t)fifo_occupancy(&S[VF_NS].fifo);
     VF_ASSERT(P.samples_in == (in_flushing? 0 : N) && P.samples_out == so0, "process does not touch the counters");
     target = in_flushing? (int)min((int64_t)n, owed0 - D) : (int)n;
